@@ -157,7 +157,22 @@ CHECKS = {
         "note": "MAC values are not computed; the hash is C10/C11; the caller passing the same key to finalize is an API contract.",
         "technique": "finite-class (key length) symbolic path summaries with uninterpreted hash events",
     },
+    "C13": {
+        "text": "RFC 5869 structure: one-shot = the two outlen classes w.r.t. 8160 (above: -1, no call, no write; else extract, expand, wipe, 0); extract = HMAC(salt, IKM) with counter 1 and nothing "
+                "buffered; expand analysed for each of the 33 buffer positions, each short-request length, and one generic loop iteration per counter class {0, 1, other}: T(n) = HMAC(PRK, T(n-1) | "
+                "info | n) with the counter byte absorbed before its 8-bit increment, refusal with a zero-filled remainder when the counter is 0, left-over bytes served first, min(32, remaining) bytes "
+                "handed out per block, cursor/remaining in lock-step. HMAC calls are uninterpreted events with fresh output symbols; buffer contents tracked byte for byte.",
+        "note": "Output values are not computed; HMAC is C12. 'Empty salt = 32 zero bytes' follows from C12's key-block rule for key length 0.",
+        "technique": "finite-class symbolic path summaries (buffer position, counter class, length class) with uninterpreted HMAC events",
+    },
+    "C14": {
+        "text": "RFC 8018 structure: per block U1 = PRF(P, S || INT32BE(i)) with the big-endian block-number bytes checked at bit level, count classes {0,1} (no chain) and > 1 (U2, then a chain loop "
+                "from the caller's count while count > 2, one generic iteration U(j+1) = PRF(P,U(j)), T ^= U(j+1)): count PRFs in total; block number from 1 in steps of 1; full blocks in place with "
+                "lock-step cursor/length; each last-block length 1..31 copies exactly that many bytes of T; T and U wiped.",
+        "note": "Derived key values are not computed; block numbers beyond 2^32 are outside RFC 8018; HMAC is C12.",
+        "technique": "finite-class symbolic path summaries with uninterpreted HMAC events; generic iterations of the block and chain loops",
+    },
 }
 
 _NB = "not built yet in this session (design exists in DESIGN.md; claimed only once its check fires on broken variants and is silent on the unchanged tree)"
-NOT_APPLICABLE = {p: _NB for p in ["C13", "C14", "C15", ]}
+NOT_APPLICABLE = {p: _NB for p in ["C15"]}
